@@ -39,5 +39,6 @@ func TestReplay_Push(t *testing.T) {
 	pReplay("TestProp_C16_FuzzShape", fuzzBody)
 	pReplay("Fuzz_C16", fuzzBody)
 	pReplay("TestProp_C17_Sign", runC17Sign)
+	pReplay("TestProp_C17_SignSequence", runC17Seq)
 	pReplay("TestProp_C17_Select", runC17Select)
 }
